@@ -1,10 +1,13 @@
 package checks
 
 import (
+	"encoding/json"
 	"fmt"
 	"math"
 	"math/rand"
+	"sort"
 	"strings"
+	"sync"
 	"time"
 
 	"github.com/uhn/ggql/pkg/ggql"
@@ -599,6 +602,7 @@ func runC04(c *run.Ctx) {
 	hist := c04Histories(c, s, sdl, g, types)
 	hist += c04Kennel(c)
 	hist += c04OmittedAndShared(c, s, sdl, g, types)
+	hist += c04Relaxed(c)
 	c.MinNontriv = (total + hist) / 3
 	c.Set("requests", total)
 }
@@ -1120,4 +1124,197 @@ func c04OmittedAndShared(c *run.Ctx, s *model.Schema, sdl string, g *model.Graph
 		}
 	}
 	return n
+}
+
+// ---------------------------------------------------------------- the Relaxed switch
+
+const c04RelaxedSDL = `
+enum Kind { SMALL LARGE }
+input Crate { k: Kind ks: [Kind!] = [SMALL] in: Crate }
+type Query { e(k: Kind): String n(k: Kind!): String l(ks: [Kind]): String ll(kss: [[Kind!]]): String b(box: Crate): String }
+`
+
+type c04RelaxedRoot struct {
+	mu    sync.Mutex
+	calls []map[string]interface{}
+}
+
+func (r *c04RelaxedRoot) Resolve(field *ggql.Field, args map[string]interface{}) (interface{}, error) {
+	if field.Name == "query" {
+		return r, nil
+	}
+	r.mu.Lock()
+	cp, _ := deepCopyAny(args).(map[string]interface{})
+	r.calls = append(r.calls, cp)
+	r.mu.Unlock()
+	return "ok", nil
+}
+
+func deepCopyAny(v interface{}) interface{} {
+	switch t := v.(type) {
+	case map[string]interface{}:
+		o := make(map[string]interface{}, len(t))
+		for k, e := range t {
+			o[k] = deepCopyAny(e)
+		}
+		return o
+	case []interface{}:
+		o := make([]interface{}, len(t))
+		for i, e := range t {
+			o[i] = deepCopyAny(e)
+		}
+		return o
+	}
+	return v
+}
+
+// c04EnumLeaves walks a received argument value along the shape {Kind | [Kind] | [[Kind]] | Crate} and returns the
+// values standing at enum positions.
+func c04EnumLeaves(v interface{}, out *[]interface{}) {
+	switch t := v.(type) {
+	case nil:
+	case []interface{}:
+		for _, e := range t {
+			c04EnumLeaves(e, out)
+		}
+	case map[string]interface{}:
+		for _, k := range []string{"k", "ks", "in"} {
+			if e, has := t[k]; has {
+				c04EnumLeaves(e, out)
+			}
+		}
+	default:
+		*out = append(*out, v)
+	}
+}
+
+// c04Relaxed: ggql.Relaxed is the documented switch that lets JSON clients (which have no enum symbols) supply enum values
+// as strings. The statement does not change with it: an enum value handed to a resolver is a declared member and the one
+// the client wrote; anything else is an error and the resolver does not run. Every case runs with the switch off and on.
+func c04Relaxed(c *run.Ctx) int {
+	defer func() { ggql.Relaxed = false }()
+	open := c.Open("K-C04-relaxed-enum-member")
+	type rcase struct {
+		text string
+		vars map[string]interface{}
+		want []string // the members the client wrote, in order; nil: not coercible (no member written at some enum position)
+	}
+	j := func(s string) map[string]interface{} {
+		var m map[string]interface{}
+		_ = json.Unmarshal([]byte(s), &m)
+		return m
+	}
+	cases := []rcase{
+		{`query($v: Kind){ e(k: $v) }`, j(`{"v":"SMALL"}`), []string{"SMALL"}},
+		{`query($v: Kind){ e(k: $v) }`, j(`{"v":"LARGE"}`), []string{"LARGE"}},
+		{`query($v: Kind){ e(k: $v) }`, j(`{"v":"MEDIUM"}`), nil},
+		{`query($v: Kind){ e(k: $v) }`, j(`{"v":"small"}`), nil},
+		{`query($v: Kind){ e(k: $v) }`, j(`{"v":""}`), nil},
+		{`query($v: Kind){ e(k: $v) }`, j(`{"v":"SMALL "}`), nil},
+		{`query($v: Kind){ e(k: $v) }`, j(`{"v":1}`), nil},
+		{`query($v: Kind){ e(k: $v) }`, j(`{"v":true}`), nil},
+		{`query($v: Kind){ e(k: $v) }`, j(`{"v":["SMALL"]}`), nil},
+		{`query($v: Kind!){ n(k: $v) }`, j(`{"v":"LARGE"}`), []string{"LARGE"}},
+		{`query($v: Kind!){ n(k: $v) }`, j(`{"v":"Kind"}`), nil},
+		{`query($v: [Kind]){ l(ks: $v) }`, j(`{"v":["SMALL","LARGE",null,"SMALL"]}`), []string{"SMALL", "LARGE", "SMALL"}},
+		{`query($v: [Kind]){ l(ks: $v) }`, j(`{"v":["SMALL","NOPE"]}`), nil},
+		{`query($v: [Kind]){ l(ks: $v) }`, j(`{"v":[]}`), []string{}},
+		{`query($v: [[Kind!]]){ ll(kss: $v) }`, j(`{"v":[["LARGE"],[],["SMALL","LARGE"]]}`), []string{"LARGE", "SMALL", "LARGE"}},
+		{`query($v: [[Kind!]]){ ll(kss: $v) }`, j(`{"v":[["LARGE"],["__typename"]]}`), nil},
+		{`query($b: Crate){ b(box: $b) }`, j(`{"b":{"k":"LARGE"}}`), []string{"LARGE", "SMALL"}},
+		{`query($b: Crate){ b(box: $b) }`, j(`{"b":{"k":"NOPE"}}`), nil},
+		{`query($b: Crate){ b(box: $b) }`, j(`{"b":{"ks":["LARGE","LARGE"],"in":{"k":"SMALL","ks":[]}}}`), []string{"LARGE", "LARGE", "SMALL"}},
+		{`query($b: Crate){ b(box: $b) }`, j(`{"b":{"in":{"in":{"ks":["LARGE","nope"]}}}}`), nil},
+		{`query($k: Kind){ b(box: {k: $k, ks: [LARGE]}) }`, j(`{"k":"SMALL"}`), []string{"SMALL", "LARGE"}},
+		{`query($k: Kind){ b(box: {k: $k, ks: [LARGE]}) }`, j(`{"k":"Small"}`), nil},
+		{`{ e(k: "SMALL") }`, nil, []string{"SMALL"}},
+		{`{ e(k: "NOPE") }`, nil, nil},
+		{`{ l(ks: [SMALL, "LARGE"]) }`, nil, []string{"SMALL", "LARGE"}},
+		{`{ l(ks: [SMALL, "large"]) }`, nil, nil},
+		{`{ b(box: {k: LARGE, in: {k: "HUGE"}}) }`, nil, nil},
+		{`query($v: Kind = "LARGE"){ e(k: $v) }`, nil, []string{"LARGE"}},
+		{`query($v: Kind = "NOPE"){ e(k: $v) }`, nil, nil},
+	}
+	done := 0
+	for _, relaxed := range []bool{false, true} {
+		for ci, rc := range cases {
+			for entry := 0; entry < 2; entry++ {
+				ggql.Relaxed = relaxed
+				ro := &c04RelaxedRoot{}
+				root := ggql.NewRoot(ro)
+				if err := root.ParseString(c04RelaxedSDL); err != nil {
+					c.Violation("c04-schema-rejected", map[string]interface{}{"error": err.Error()})
+					return done
+				}
+				var res map[string]interface{}
+				pv, _ := run.Protect(func() {
+					if entry == 0 {
+						res = root.ResolveString(rc.text, "", copyVars(rc.vars))
+					} else {
+						res = root.ResolveBytes([]byte(rc.text), "", copyVars(rc.vars))
+					}
+				})
+				ggql.Relaxed = false
+				done++
+				c.Eval(fmt.Sprintf("relaxed=%v|%d|%d", relaxed, ci, entry), true)
+				c.Bucket("relaxed_switch", fmt.Sprint(relaxed))
+				rep := func(diag string) {
+					c.Violation("c04-relaxed", map[string]interface{}{"Relaxed": relaxed, "sdl": c04RelaxedSDL, "document": rc.text, "vars": rc.vars, "diag": diag,
+						"received": fmt.Sprintf("%#v", ro.calls), "response": fmt.Sprint(res)})
+				}
+				if pv != nil {
+					rep(fmt.Sprintf("panic: %v", pv))
+					continue
+				}
+				_, hasErr := res["errors"]
+				if len(ro.calls) == 0 {
+					if !hasErr {
+						rep("the resolver did not run and no error was reported")
+					}
+					c.Count("relaxed_cases_refused", 1)
+					continue // refusing is always allowed
+				}
+				c.Count("relaxed_cases_resolver_ran", 1)
+				var leaves []interface{}
+				for _, a := range ro.calls[0] {
+					c04EnumLeaves(a, &leaves)
+				}
+				var got []string
+				foreign := ""
+				for _, l := range leaves {
+					name := ""
+					switch t := l.(type) {
+					case ggql.Symbol:
+						name = string(t)
+					case string:
+						name = t
+					default:
+						foreign = fmt.Sprintf("%T(%v) at an enum position", l, l)
+					}
+					if name != "SMALL" && name != "LARGE" && foreign == "" {
+						foreign = fmt.Sprintf("%q is not a member of Kind", name)
+					}
+					got = append(got, name)
+				}
+				switch {
+				case foreign != "" && relaxed && open && rc.want == nil:
+					// the open finding: with the switch on any string passes for a member
+					c.Known("K-C04-relaxed-enum-member", map[string]interface{}{"document": rc.text, "vars": rc.vars, "received": fmt.Sprintf("%v", ro.calls[0])})
+				case foreign != "":
+					rep("the resolver received " + foreign)
+				case rc.want == nil:
+					rep("the value can not be coerced (an enum position holds no declared member) but the resolver ran")
+				default:
+					// members only: they must be the ones the client wrote (as a multiset: map order is not defined)
+					a, b := append([]string{}, got...), append([]string{}, rc.want...)
+					sort.Strings(a)
+					sort.Strings(b)
+					if strings.Join(a, ",") != strings.Join(b, ",") {
+						rep(fmt.Sprintf("enum members received %v, the client wrote %v", got, rc.want))
+					}
+				}
+			}
+		}
+	}
+	return done
 }
